@@ -49,14 +49,23 @@ func gen(g *common.Gen) {
 		}
 		g.Op("%s", mk)
 		size := EstSize(mk)
+		// packets of 64 KiB cost the model driver ~1.5 s per decode: in the quick tier they get a
+		// reduced set of decodes (contiguous, own buffers, one cut set), the thorough tier all
+		light := !common.Thorough() && (size > 20000 || strings.Contains(mk, " t:655"))
 		g.Op("rd c")
-		g.Op("rd w")
 		g.Op("rd own")
-		for k := r.Range(1, 4); k > 0; k-- {
+		nrd := r.Range(1, 4)
+		if light {
+			nrd = 1
+			g.Stat("light-huge")
+		} else {
+			g.Op("rd w")
+			g.Op("rp c")
+			g.Op("rp own")
+		}
+		for k := nrd; k > 0; k-- {
 			g.Op("rd %s", GenCuts(r, size))
 		}
-		g.Op("rp c")
-		g.Op("rp own")
 		g.Op("rp %s", GenCuts(r, size))
 		if size <= 700 {
 			g.Op("rdall")
@@ -69,7 +78,11 @@ func gen(g *common.Gen) {
 		// malformed input: the same bytes with one bit flipped, decoded contiguously, over random
 		// cuts and (small packets) over every single cut — segmented decoding must agree with
 		// contiguous decoding on ANY bytes
-		for k := r.Range(1, 3); k > 0; k-- {
+		nm := r.Range(1, 3)
+		if light {
+			nm = 0
+		}
+		for k := nm; k > 0; k-- {
 			bit := r.Intn(8 * size)
 			if r.Chance(1, 2) {
 				bit = r.Intn(8 * min(size, 48))
